@@ -374,14 +374,15 @@ class Interp:
     def call_function(self, ctx, func, args, kwargs):
         q = func.qualname
         c = self.world.contract(q)
-        if c is not None and c.model is not None and q not in ctx.no_model and q != ctx.verifying:
+        cm = None if c is None else (c.call_model or c.model)
+        if cm is not None and q not in ctx.no_model and q != ctx.verifying:
             env = self.bind(ctx, func, args, kwargs, func.module)
             ctx.modelled.add(q)
             if c.pre is not None:
                 ctx.oblige('call->%s::requires' % q, c.pre(ctx, env), kind='call-pre',
                            info={'callee': q})
                 ctx.assume(c.pre(ctx, env))
-            return c.model(ctx, env)
+            return cm(ctx, env)
         if c is None:
             ctx.inlined.add(q)
         env = self.bind(ctx, func, args, kwargs, func.module)
